@@ -18,7 +18,8 @@ RULE = ('Hypothesis triples for each of match/match_groups/match_all taken from 
         'biased to catastrophic shapes (nested and overlapping quantifiers, alternations, counted repeats, back-references, '
         'look-around, possessive/lazy, fuzzy, reverse, long benign padding that makes compilation slow) plus a seed corpus '
         'of classic ReDoS patterns; subjects = pumpable prefix x n (n up to 100000) + non-matching tail, and repeated '
-        'expensive-but-matching segments; 1 in 6: cheap patterns over 3000-30000 distinct tokens (very long result lists) '
+        'expensive-but-matching segments; 1 in 9 subjects pump combining marks in non-canonical order, Hangul jamo, ligatures, '
+        'dotted capitals (costly for Unicode normalisation / case folding); subjects capped at 10^5 characters; 1 in 6: cheap patterns over 3000-30000 distinct tokens (very long result lists) '
         'with every single letter a-z/A-Z as flag; flags otherwise from "", i, m, s, ims, junk, None. Oracle: CPU time of the call (cold '
         'compile cache) <= 1.5 x measured compile CPU + 0.30 s + 5 us x |subject| + 50 us x |pattern|, and the helper is not '
         'killed by its 6 s CPU cap. Non-trivial: the call raised TimeoutError or used > 10 ms CPU; distinct by triple.')
@@ -202,8 +203,16 @@ def cases(draw, funcs):
             p = pick(['(?r)', '^', '(?i)', '(?s)']) + p
     rep = 1
     pump = pick(['a', 'a', 'ab', 'aa', 'x', 'a ', '1', 'aab'])
+    if n(9) == 0:
+        # text that is expensive for Unicode machinery (normalisation, case folding, grapheme handling), not for the matcher
+        pump = pick(['\u0301\u0316', 'e\u0301\u0316\u0301\u0316', '\u0316\u0301', '\u1100\u1161', '\u00df', '\u0130', '\ufb01', '\u0041\u030a', '\U0001f468\u200d', '\u0345\u0301',
+                     '\u0f71\u0f72\u0f74', '\u05b0\u05b1'])
     nn = pick([20, 25, 30, 40, 100, 1000, 5000, 100000, 28, 35, 50, 14, 16, 18])
     tail = pick(['!', '', 'b', 'c', 'X', 'y'])
+    if ord(pump[0]) > 127 or len(pump) > 3:
+        nn = pick([20000, 50000, 100000, 100000])
+    if len(pump) * nn > 100000:
+        nn = 100000 // len(pump)
     if n(7) == 0:
         # many matches, each expensive but below the per-call timeout: (EVIL)c|<tail> over repeated segments
         core_p = pick(['(a|a)+', '(a+)+', '(a|aa)+', '(a*)*', '(a|a?)+'])
